@@ -14,7 +14,7 @@ Theorem C13_dec_quo_close : forall cur last, 0 <= cur -> 0 < last ->
 Proof. exact dec_quo_close. Qed.
 Print Assumptions C13_dec_quo_close.
 
-(* the sharp version: within (1/2 + 1/P) of a unit; the upper bound is exactly half a unit *)
+(* the tighter version: within (1/2 + 1/P) of a unit; the upper bound is exactly half a unit *)
 Theorem C13_dec_quo_half : forall cur last, 0 <= cur -> 0 < last ->
   let q := dec_quo (dec_of_int cur) (dec_of_int last) in
   2 * (q * last) <= 2 * (cur * P) + last
